@@ -77,6 +77,8 @@ def gen_world(r, anp=False, big=False, pods=True, multi_kind=True):
               'replicas': r.choice([None, 0, 1, 2, 3]), 'owner': None}
         if kind == 'Pod' and r.random() < 0.4:
             wl['owner'] = {'name': 'own%d' % i, 'kind': r.choice(['ReplicaSet', 'StatefulSet', 'Job'])}
+            wl['extra_owner'] = r.random() < 0.4
+        wl['omit_ns'] = r.random() < 0.5
         W['workloads'].append(wl)
 
     def npport():
@@ -318,14 +320,20 @@ def workload_manifest(w):
     tmpl = {'metadata': {'labels': dict(w['labels'])},
             'spec': {'containers': [{'name': 'c', 'image': 'x', 'ports': _cports(w['ports'])}]}}
     meta = {'name': w['name'], 'namespace': w['ns']}
+    if w.get('omit_ns') and w['ns'] == 'default':
+        meta = {'name': w['name']}        # the parser puts namespaced objects without a namespace into default
     k = w['kind']
     rep = w.get('replicas')
     if k == 'Pod':
         m = {'apiVersion': 'v1', 'kind': 'Pod', 'metadata': dict(meta, labels=dict(w['labels'])),
              'spec': tmpl['spec'], 'status': {'hostIP': '192.168.49.2', 'podIPs': [{'ip': '10.244.0.5'}]}}
         if w.get('owner'):
-            m['metadata']['ownerReferences'] = [{'apiVersion': 'apps/v1', 'kind': w['owner']['kind'], 'name': w['owner']['name'],
-                                                 'uid': 'u-' + w['owner']['name'], 'controller': True}]
+            refs = [{'apiVersion': 'apps/v1', 'kind': w['owner']['kind'], 'name': w['owner']['name'],
+                     'uid': 'u-' + w['owner']['name'], 'controller': True}]
+            if w.get('extra_owner'):
+                # a non-controller owner listed first: it must not become the workload
+                refs.insert(0, {'apiVersion': 'v1', 'kind': 'PodGroup', 'name': 'grp-' + w['name'], 'uid': 'g-' + w['name'], 'controller': False})
+            m['metadata']['ownerReferences'] = refs
         return m
     if k in ('Deployment', 'ReplicaSet', 'StatefulSet', 'DaemonSet'):
         spec = {'selector': {'matchLabels': dict(w['labels'])}, 'template': tmpl}
